@@ -8,6 +8,7 @@ import (
 	"fmt"
 	"io"
 	"reflect"
+	"strings"
 
 	gots "github.com/Comcast/gots/v2"
 	"github.com/Comcast/gots/v2/packet"
@@ -226,7 +227,7 @@ func (tempErr) Error() string   { return "injected temporary packet-writer failu
 func (tempErr) Temporary() bool { return true }
 func (tempErr) Timeout() bool   { return true }
 
-const nReaderKinds = 9
+const nReaderKinds = 12
 
 func mkReader(kind int, data []byte, failR int, r *gen.Rand) (io.Reader, string) {
 	return mkReaderErr(kind, data, failR, r, errR)
@@ -266,6 +267,28 @@ func mkReaderErr(kind int, data []byte, failR int, r *gen.Rand, rerr error) (io.
 			return &oneShot{b: append([]byte{}, data...), failAt: failR, err: rerr, r: r}, "reader that reports its failure once, with the bytes read so far, and then carries on"
 		}
 		return &chunked{src, r, 300}, "random chunks 1..300"
+	case 9, 10, 11:
+		// a reader of the standard library that knows its size, already advanced by its owner past some leading
+		// bytes (a file header, garbage in front of the first packet): the stream is what is left in it
+		if failR >= 0 {
+			return &chunked{src, r, 300}, "random chunks 1..300"
+		}
+		lead := r.PickInt([]int{1, 3, 100, 187, 189, 1 + r.Intn(400)})
+		all := append(r.Bytes(lead), data...)
+		switch kind {
+		case 9:
+			br := bytes.NewReader(all)
+			br.Seek(int64(lead), io.SeekStart)
+			return br, fmt.Sprintf("*bytes.Reader advanced by %d bytes", lead)
+		case 10:
+			sr := strings.NewReader(string(all))
+			io.CopyN(io.Discard, sr, int64(lead))
+			return sr, fmt.Sprintf("*strings.Reader advanced by %d bytes", lead)
+		default:
+			se := io.NewSectionReader(bytes.NewReader(all), 0, int64(len(all)))
+			se.Seek(int64(lead), io.SeekStart)
+			return se, fmt.Sprintf("*io.SectionReader advanced by %d bytes", lead)
+		}
 	default:
 		return &chunked{oneByte{src}, r, 3}, "one byte at a time (nested)"
 	}
@@ -612,7 +635,7 @@ func run(c *mon.Ctx) {
 		}
 		c.Count("write.long_slices")
 	})
-	c.Exhaustive("ReadFrom: k 0..20 x failing write position -1..k x 4 tails x 9 reader kinds", int64(21*22/2+21)*36)
+	c.Exhaustive("ReadFrom: k 0..20 x failing write position -1..k x 4 tails x 12 reader kinds", int64(21*22/2+21)*48)
 	c.StreamSeedless("readfrom-write-faults", maxK+1, func(k int, r *gen.Rand) {
 		for failW := -1; failW <= k; failW++ {
 			for _, tail := range []int{0, 1, 187, 1 + r.Intn(187)} {
